@@ -11,7 +11,7 @@ use vharness::Rng;
 pub const LABELS: [&str; 4] = ["", "A", "B b", "\u{dc}n\u{ef}"];
 pub const TYPES: [&str; 3] = ["", "KNOWS", "r 2"];
 pub const KEYS: [&str; 4] = ["k", "a b", "\u{43a}\u{43b}\u{44e}\u{447}", "K"];
-pub const N_VALUES: u32 = 13;
+pub const N_VALUES: u32 = 18;
 
 pub fn value(tag: u32) -> PropertyValue {
     match tag {
@@ -33,6 +33,11 @@ pub fn value(tag: u32) -> PropertyValue {
         10 => PropertyValue::Vector(vec![0.5, 1.0]),
         11 => PropertyValue::DateTime(5),
         12 => PropertyValue::Duration { months: 1, days: -2, seconds: 3, nanos: 4 },
+        13 => PropertyValue::Integer(i64::MIN),
+        14 => PropertyValue::String(String::new()),
+        15 => PropertyValue::Array(vec![]),
+        16 => PropertyValue::String("0123456789abcdef".repeat(1024)), // 16 KiB
+        17 => PropertyValue::Array(vec![PropertyValue::Array(vec![PropertyValue::Null]), PropertyValue::Float(-2.5e300)]),
         _ => panic!("no value with tag {}", tag),
     }
 }
@@ -150,7 +155,7 @@ impl Cfg {
     }
     /// register the tenant in a manager's (volatile) tenant registry
     pub fn setup(&self, pm: &PersistenceManager, tenant: &str) {
-        if !self.registered { return; }
+        if !self.registered || tenant == "default" { return; }
         let mut q = ResourceQuotas::unlimited();
         q.max_nodes = self.max_nodes;
         q.max_edges = self.max_edges;
@@ -188,8 +193,10 @@ pub fn apply(pm: &PersistenceManager, tenant: &str, op: &Op) -> String {
         Op::CreateEdge { id, src, tgt, ty, props } => pm.persist_create_edge(tenant, &mk_edge(*id, *src, *tgt, *ty, props)),
         Op::DeleteNode(id) => pm.persist_delete_node(tenant, *id),
         Op::DeleteEdge(id) => pm.persist_delete_edge(tenant, *id),
-        Op::UpdateNode(id, p) => pm.persist_update_node_properties(tenant, *id, &props_of(p)),
-        Op::UpdateEdge(id, p) => pm.persist_update_edge_properties(tenant, *id, &props_of(p), 0),
+        // both the unversioned entry point and versions != 0 (the version is not stored)
+        Op::UpdateNode(id, p) if p.is_empty() => pm.persist_update_node_properties(tenant, *id, &props_of(p)),
+        Op::UpdateNode(id, p) => pm.persist_update_node_properties_versioned(tenant, *id, &props_of(p), p.len() as u64),
+        Op::UpdateEdge(id, p) => pm.persist_update_edge_properties(tenant, *id, &props_of(p), p.len() as u64),
     };
     match r {
         Ok(()) => "ok".into(),
@@ -258,8 +265,10 @@ pub fn gen_labels(rng: &mut Rng) -> Vec<u32> {
 }
 /// ids from a small range so that re-puts, deletes of absent ids and updates of present and
 /// absent entities all happen
+pub const BIG_IDS: [u64; 3] = [0, 1 << 32, u64::MAX];
 pub fn gen_op(rng: &mut Rng, max_id: u64) -> Op {
-    let id = 1 + rng.below(max_id);
+    // mostly small ids; now and then 0, 2^32 and u64::MAX (key formatting, ordering)
+    let id = if rng.chance(1, 10) { *rng.pick(&BIG_IDS) } else { 1 + rng.below(max_id) };
     match rng.below(12) {
         0..=2 => Op::CreateNode { id, labels: gen_labels(rng), props: gen_props(rng) },
         3..=4 => Op::CreateEdge { id, src: 1 + rng.below(max_id), tgt: 1 + rng.below(max_id), ty: rng.below(TYPES.len() as u64) as u32, props: gen_props(rng) },
